@@ -577,7 +577,9 @@ def select_capture_kwargs(
     :return: a subset of resolved_kwargs
     """
     missing_args = [
-        arg_name for arg_name in a_snapshot.args if arg_name not in resolved_kwargs
+        arg_name
+        for arg_name in a_snapshot.mandatory_args
+        if arg_name not in resolved_kwargs
     ]
     if missing_args:
         msg_parts = []
